@@ -1112,7 +1112,8 @@ fn gen_c13(rng: &mut Rng, ctx: &mut Ctx, rep: &mut Report, emit: Emit) {
         if i % 16 == 3 {
             // sources that differ in ONE character a printing routine might drop, fold or escape: control characters,
             // white space, zero-width and combining characters, case — different endpoints, so different IDs
-            const TWINS: [(&str, &str); 14] = [("in\tbox", "inbox"), ("in\u{0}box", "inbox"), ("inbox\u{7f}", "inbox"), ("in\u{1b}[0mbox", "in[0mbox"), ("inbox ", "inbox"), (" inbox", "inbox"),
+            const TWINS: [(&str, &str); 24] = [("gw%41", "gwA"), ("n%2D1", "n-1"), ("lab\u{202e}7", "lab\\u{202e}7"), ("a\u{200e}b", "a\\u{200e}b"), ("a\u{2066}b", "ab"), ("in\\tbox", "in\tbox"),
+                ("a&amp;b", "a&b"), ("a\\x41", "aA"), ("x\u{61c}y", "xy"), ("caf\u{e9}", "cafe"),("in\tbox", "inbox"), ("in\u{0}box", "inbox"), ("inbox\u{7f}", "inbox"), ("in\u{1b}[0mbox", "in[0mbox"), ("inbox ", "inbox"), (" inbox", "inbox"),
                 ("in\u{200b}box", "inbox"), ("e\u{301}", "\u{e9}"), ("Inbox", "inbox"), ("in\nbox", "inbox"), ("in\r\nbox", "in\nbox"), ("in%09box", "in\tbox"), ("in\u{85}box", "inbox"), ("in\u{feff}box", "inbox")];
             let (x, y) = *rng.pick(&TWINS);
             let (t, q) = (digits(rng), digits(rng));
